@@ -140,6 +140,25 @@ class Handler(GopherRequestHandler):
 
 _logsink = []
 
+# a request that does not finish is a finding, not a hang of the harness: interrupt it
+import signal  # noqa: E402
+REQUEST_TIME_LIMIT = float(os.environ.get("VERIF_REQUEST_TIME_LIMIT", "30"))
+
+
+class RequestTimeLimit(BaseException):
+    pass
+
+
+def _on_alarm(signum, frame):
+    raise RequestTimeLimit("request still running after %.0f s" % REQUEST_TIME_LIMIT)
+
+
+try:
+    signal.signal(signal.SIGALRM, _on_alarm)
+    _alarm_ok = threading.current_thread() is threading.main_thread()
+except (ValueError, OSError):
+    _alarm_ok = False
+
 
 def _log(msg):
     _logsink.append(msg)
@@ -243,6 +262,8 @@ def serve_once(config, data, tls=False, trace=False, client=("10.77.77.77", "777
     tr = [] if trace else None
     t0 = time.time()
     _trace = tr
+    if _alarm_ok:
+        signal.setitimer(signal.ITIMER_REAL, REQUEST_TIME_LIMIT)
     try:
         try:
             h.handle()
@@ -256,6 +277,8 @@ def serve_once(config, data, tls=False, trace=False, client=("10.77.77.77", "777
     finally:
         _trace = None
     dt = time.time() - t0
+    if _alarm_ok:
+        signal.setitimer(signal.ITIMER_REAL, 0)
     out = getattr(wfile, "final", None)
     if out is None:
         try:
